@@ -3,7 +3,7 @@ EXTENDS TrackModel
 Str(o) == [opk |-> "str", op |-> o, type |-> ""]
 Inl(n, ty) == [opk |-> "inl", op |-> n, type |-> ty]
 Op(n, ty, b) == [name |-> n, type |-> ty, bulk |-> b]
-Doc(b, x, cnt, ti) == [base |-> b, ext |-> x, count |-> cnt, tidx |-> ti]
+Doc(b, x, cnt, ti) == [base |-> b, ext |-> x, count |-> cnt, tidx |-> ti, tds |-> "", iaamd |-> "abs"]
 
 \* ---- quick: exhaustive over small alphabets ----
 FormsAll == {"schedule", "challenge", "challenges"}
@@ -14,12 +14,15 @@ SeedTwo == [Seed0("challenges") EXCEPT !.chals = <<[@[1] EXCEPT !.dflt = "true"]
 SeedOps == [EmptyFile("schedule", "", Str("n1")) EXCEPT !.ops = <<Op("n1", "bulk", P("p1", 50))>>]
 SeedPar == [Seed0("challenge") EXCEPT !.chals[1].sched =
                <<[ParEl(BareTask(Str("bulk"))) EXCEPT !.wtp = L(5), !.tasks = Append(@, BareTask(Inl("", "force-merge")))]>>]
-SeedCorpus == [Seed0("schedule") EXCEPT !.indices = <<"i1">>, !.corpora = <<[name |-> "k1", docs |-> <<Doc("docs1", "bz2", L(10), "")>>]>>]
+SeedCorpus == [Seed0("schedule") EXCEPT !.indices = <<"i1">>, !.corpora = <<[name |-> "k1", tidx |-> "", tds |-> "", iaamd |-> "abs", docs |-> <<Doc("docs1", "bz2", L(10), "")>>]>>]
+\* two indices, the corpus names the default target; the document set has none of its own
+SeedCorpus2 == [SeedCorpus EXCEPT !.indices = <<"i1", "i2">>, !.corpora[1].tidx = "i2"]
 SeedsOps == {SeedOps}
-SeedsAll == {Seed0(form) : form \in FormsAll} \cup {SeedTwo, SeedOps, SeedPar, SeedCorpus}
+SeedsAll == {Seed0(form) : form \in FormsAll} \cup {SeedTwo, SeedOps, SeedPar, SeedCorpus, SeedCorpus2}
 TaskOpsQ == {Str("bulk"), Str("n1"), Inl("", "force-merge")}
 OpDefsQ == {Op("n1", "search", L(50)), Op("n1", "bulk", P("p1", 50)), Op("n2", "force-merge", NoVal)}
-DocFilesQ == {Doc("docs1", "bz2", L(10), ""), Doc("docs2", "", P("p1", 10), "i1"), Doc("docs1", "", L(0), "")}
+DocFilesQ == {Doc("docs1", "bz2", L(10), ""), Doc("docs2", "", P("p1", 10), "i1"), Doc("docs1", "", L(0), ""),
+              [Doc("docs3", "", L(10), "") EXCEPT !.iaamd = "true"]}
 AlphaQ == [clients |-> {0, 2}, wi |-> {0}, it |-> {0, 3}, wtp |-> {5}, tp |-> {7}, ru |-> {5, 9}, tput |-> {4}, bulk |-> {50},
            cap |-> {1}]
 \* ---- thorough: one more thing written, wider alphabets ----
@@ -37,7 +40,8 @@ TaskOpsS == {Str("bulk"), Str("search"), Str("n1"), Str("n2"), Str("n3"), Inl(""
 OpDefsS == {Op("n1", "search", L(50)), Op("n1", "bulk", P("p1", 50)), Op("n2", "force-merge", NoVal), Op("n2", "bulk", P("p2", 1000)),
             Op("n3", "my-op", NoVal), Op("search", "raw-request", NoVal)}
 DocFilesS == {Doc("docs1", "bz2", L(10), ""), Doc("docs2", "", P("p1", 10), "i1"), Doc("docs1", "", L(0), ""), Doc("docs3", "gz", P("p2", 500), ""),
-              Doc("docs4", "", L(1000000), "i2")}
+              Doc("docs4", "", L(1000000), "i2"), [Doc("docs5", "gz", L(7), "") EXCEPT !.iaamd = "true"],
+              [Doc("docs6", "", L(7), "") EXCEPT !.tds = "d1"]}
 AlphaS == [clients |-> {0, 1, 2, 8}, wi |-> {0, 100}, it |-> {0, 1, 1000}, wtp |-> {0, 5, 120}, tp |-> {0, 7, 3600}, ru |-> {0, 5, 9, 120},
            tput |-> {1, 40}, bulk |-> {50, 5000}, cap |-> {0, 1, 3}]
 AllFields == {"clients", "wi", "it", "wtp", "tp", "ru", "tput", "bulk", "cap"}
